@@ -221,15 +221,22 @@ class C20(Prop):
 
     def model(self, case, reply, obs):
         steps = []
-        for s in reply["steps"]:
+        for op, s in zip(case["ops"], reply["steps"]):
             s["state"]["map"] = sorted(s["state"]["map"])
+            if op[0] == "iter" and isinstance(s.get("res"), list):
+                s["res"] = sorted(s["res"])          # the order of iteration is not part of the property
             steps.append(s)
         return {"steps": steps, "rng_unexpected": 0}
 
     def project(self, case, obs):
         if "exc" in obs:
             return obs
-        return {"steps": obs["steps"], "rng_unexpected": obs["rng_unexpected"]}
+        steps = []
+        for op, st in zip(case["ops"], obs["steps"]):
+            if op[0] == "iter" and isinstance(st.get("res"), list):
+                st = dict(st, res=sorted(st["res"]))
+            steps.append(st)
+        return {"steps": steps, "rng_unexpected": obs["rng_unexpected"]}
 
     def oracle(self, case, obs):
         if "exc" in obs:
